@@ -142,9 +142,12 @@ func c25RaceFindings(ro *scen.RaceOut, logText string, add func(sc string, r *sc
 		for i := range reps {
 			r := &reps[i]
 			n++
-			if r.IsMapRace() && (r.A.Loc != "" || r.B.Loc != "") {
+			switch {
+			case r.A.Loc == "" && r.B.Loc == "":
+				// both accesses in harness code (e.g. the cleanup of a node whose threads are stuck): not about the repository
+			case r.IsMapRace():
 				add(rs.Name, r)
-			} else {
+			default:
 				warn(rs.Name, r)
 			}
 		}
@@ -237,6 +240,14 @@ func init() {
 		if deadline.After(c.Deadline) {
 			deadline = c.Deadline
 		}
+		// thorough: a deterministic cap on the executions per scenario and shard keeps the run inside its budget on a loaded box
+		maxExec := 0
+		if !c.Quick() {
+			maxExec = 3000
+		}
+		if v := os.Getenv("VERIF_C25_MAXEXEC"); v != "" {
+			fmt.Sscan(v, &maxExec)
+		}
 		only := []string(nil)
 		if v := os.Getenv("VERIF_C25_ONLY"); v != "" {
 			only = strings.Split(v, ";")
@@ -249,7 +260,7 @@ func init() {
 			wg.Add(1)
 			go func(i int) {
 				defer wg.Done()
-				schedP[i] = c25Spawn(".sched", dir, i, scen.Job{Role: "sched", Tier: c.Tier, Shard: i, NShards: nSched, Deadline: deadline.Unix(), Only: only})
+				schedP[i] = c25Spawn(".sched", dir, i, scen.Job{Role: "sched", Tier: c.Tier, Shard: i, NShards: nSched, Deadline: deadline.Unix(), Only: only, MaxExec: maxExec})
 			}(i)
 		}
 		for i := 0; i < nRace; i++ {
@@ -350,6 +361,7 @@ func init() {
 		var perScen []map[string]interface{}
 		skipped := 0
 		tierA := map[string]int64{}
+		var incomplete []string
 		for _, n := range order {
 			a := stats[n]
 			if a.Skip != "" {
@@ -364,6 +376,9 @@ func init() {
 			outcomes += int64(len(a.outcomes))
 			if !a.Complete {
 				exhaustive = false
+				if a.Bound > 0 {
+					incomplete = append(incomplete, n)
+				}
 			}
 			if a.Bound == 0 {
 				tierA["scenarios"]++
@@ -372,6 +387,7 @@ func init() {
 				tierA["distinct_outcomes"] += int64(len(a.outcomes))
 				if !a.Complete {
 					tierA["incomplete"]++
+					incomplete = append(incomplete, n)
 				}
 				continue
 			}
@@ -457,6 +473,10 @@ func init() {
 		cv["scenarios_preempted"] = perScen
 		cv["tier_a"] = tierA
 		cv["scenarios_skipped"] = skipped
+		cv["scenarios_incomplete"] = incomplete
+		if len(incomplete) > 0 {
+			fmt.Printf("  incomplete (execution cap per shard or deadline reached): %v\n", incomplete)
+		}
 		cv["race_pass"] = raceSummary
 		var hp []interface{}
 		var hpKeys []string
@@ -475,6 +495,7 @@ func init() {
 			}
 		}
 		cv["workers"] = map[string]int{"scheduler": nSched, "race": nRace}
+		cv["max_executions_per_scenario_and_shard"] = maxExec
 		cv["rule"] = "states = distinct schedules (hand-over sequences) executed, each on a fresh node; transitions = scheduling points (lock / waitgroup operations and ABCI-call boundaries) executed; " +
 			"an execution is non-trivial when at least one thread was suspended unfinished while another ran; schedules are enumerated depth-first as deviations from 'keep running the current thread', " +
 			"cost = preemptions (switching away from a thread that could continue, other than at an ABCI-call / handler-call boundary), bound per scenario; " +
